@@ -107,6 +107,28 @@ type RStep struct {
 	Lon  float64 `json:"lon,omitempty"`
 	Note string  `json:"note,omitempty"`
 	Sync bool    `json:"sync,omitempty"` // barrier probe for the live observer
+	// Reset: a SET that repeats the object's exact current position. Alt picks the
+	// spelling of the (numerically identical) coordinates: 0 canonical, 1 with
+	// trailing zeros, 2 exponent form. Extra adds "field" (FIELD speed n) or "ex"
+	// (EX 1000) to the SET.
+	Reset bool   `json:"reset,omitempty"`
+	Alt   int    `json:"alt,omitempty"`
+	Extra string `json:"extra,omitempty"`
+}
+
+// coordText writes f in one of three spellings that parse to the same float64.
+func coordText(f float64, alt int) string {
+	s := ff(f)
+	switch alt {
+	case 1:
+		if strings.Contains(s, ".") {
+			return s + "00"
+		}
+		return s + ".0"
+	case 2:
+		return strconv.FormatFloat(f, 'e', -1, 64)
+	}
+	return s
 }
 
 type RoamCase struct {
@@ -390,6 +412,35 @@ func genRoam(rt *rapid.T, maxSteps int) RoamCase {
 				g.add(RStep{Op: "del", Col: col, ID: id})
 				sync(false)
 			}
+			continue
+		}
+		// re-SET of a fleet object at its exact current coordinates (possibly after
+		// a neighbour moved into / out of its radius meanwhile): without NODWELL
+		// every matching neighbour inside the radius must be reported again
+		if cur, ok := g.cols[0][id]; ok && col == 0 && pct(rt, "reset") < 20 {
+			kind := "re-set in place"
+			if pct(rt, "reset-after-move") < 55 {
+				rc, rids := 1, otherIDs
+				if cs.SameKey {
+					rc, rids = 0, fleet
+				}
+				z := pick(rt, "reset-neighbour", rids)
+				for try := 0; try < 6 && !(rc == 0 && z == id); try++ {
+					ratio := pick(rt, "ratio", ratios) * (1 + unif(rt, "ratio-jitter", -0.0004, 0.0004))
+					brg := pick(rt, "bearing", bearings) + unif(rt, "bearing-jitter", -3, 3)
+					la, lo := destination(cur.lat, cur.lon, ratio*cs.Radius, brg)
+					p := pos{round8(la), round8(lo)}
+					if g.clear(rc, z, p) {
+						g.add(RStep{Op: "set", Col: rc, ID: z, Lat: p.lat, Lon: p.lon, Note: fmt.Sprintf("neighbour move before re-set: 0/%s d/r=%.4f brg=%.1f", id, ratio, brg)})
+						sync(false)
+						kind = "re-set in place after neighbour move"
+						break
+					}
+				}
+			}
+			g.add(RStep{Op: "set", Col: 0, ID: id, Lat: cur.lat, Lon: cur.lon, Reset: true, Alt: intn(rt, "alt", 0, 2),
+				Extra: pick(rt, "extra", []string{"", "", "field", "ex"}), Note: kind})
+			sync(false)
 			continue
 		}
 		placed := false
@@ -689,7 +740,14 @@ func runRoam(t failer, c *ev.Collector, cs RoamCase) (info roamInfo) {
 		if s.Op == "del" {
 			args = []string{"DEL", keys[s.Col], s.ID}
 		} else {
-			args = []string{"SET", keys[s.Col], s.ID, "POINT", ff(s.Lat), ff(s.Lon)}
+			args = []string{"SET", keys[s.Col], s.ID}
+			switch s.Extra {
+			case "field":
+				args = append(args, "FIELD", "speed", strconv.Itoa(n+1))
+			case "ex":
+				args = append(args, "EX", "1000")
+			}
+			args = append(args, "POINT", coordText(s.Lat, s.Alt), coordText(s.Lon, s.Alt))
 		}
 		corner := 0
 		v, err := ctl.Do(args...)
@@ -757,7 +815,17 @@ func runRoam(t failer, c *ev.Collector, cs RoamCase) (info roamInfo) {
 			if len(exp) == 0 {
 				info.labels["step-without-message"]++
 			}
-			if (corner > 0 || nb+fa >= 2) && !s.Sync {
+			if s.Reset {
+				info.labels["reset:"+s.Note]++
+				info.labels[fmt.Sprintf("reset-spelling-%d", s.Alt)]++
+				if s.Extra != "" {
+					info.labels["reset-with-"+s.Extra]++
+				}
+				if nb > 0 {
+					info.labels["reset-step-with-nearby"]++
+				}
+			}
+			if (corner > 0 || nb+fa >= 2 || (s.Reset && nb+fa >= 1)) && !s.Sync {
 				info.nontriv = append(info.nontriv, fmt.Sprintf("%s|%v|%v|r=%s|%s|c=%d|n=%d|f=%d", cs.Pattern, cs.SameKey, cs.NoDwell, ff(cs.Radius), s.Note, corner, nb, fa))
 			}
 		}
@@ -850,7 +918,7 @@ func runRoam(t failer, c *ev.Collector, cs RoamCase) (info roamInfo) {
 func TestC20_Roam(t *testing.T) {
 	c := ev.New("C20", "roam", "exploration")
 	t.Cleanup(c.Flush)
-	c.Rule("per case one fence NEARBY fleet [MATCH g] FENCE [NODWELL] ROAM key2 pattern meters (key2 = fleet or another collection; pattern *, prefix glob, class glob or exact id; radius 200 m..50 km log-uniform; anywhere |lat|<=70) installed as channel + webhook (+ live connection with a barrier probe in part of the cases); 4..N steps, each SET moves/creates one point object of either collection to a position constructed from an existing object: distance d/r in {0.05,0.3,0.6,0.9,0.999,1.001,1.1,1.2,1.3,1.396,1.45,2.5} (jittered 4e-4) at bearing k*45 deg +-3 (45/135/225/315 with 1<d/r<1.41 = inside the search rectangle but outside the circle), occasionally DEL; every position keeps |d/r-1|>=1e-4 to every other object. Oracle: own haversine over the model's positions: nearby = other pattern-matching objects of key2 with d(new)<=r (minus, under NODWELL, those with d(old)<=r), faraway = d(old)<=r and d(new)>r, one message per entry, nothing else, meters = floor(d*1000)/1000 within 1e-3+1e-9 d; compared per step (a PUBLISH sentinel after every write delimits the channel stream). Non-trivial: a step whose new position has >=1 pattern-matching neighbour in the corner region or that yields >=2 entries; distinct by (pattern, same/other key, NODWELL, radius, construction, counts).")
+	c.Rule("per case one fence NEARBY fleet [MATCH g] FENCE [NODWELL] ROAM key2 pattern meters (key2 = fleet or another collection; pattern *, prefix glob, class glob or exact id; radius 200 m..50 km log-uniform; anywhere |lat|<=70) installed as channel + webhook (+ live connection with a barrier probe in part of the cases); 4..N steps, each SET moves/creates one point object of either collection to a position constructed from an existing object: distance d/r in {0.05,0.3,0.6,0.9,0.999,1.001,1.1,1.2,1.3,1.396,1.45,2.5} (jittered 4e-4) at bearing k*45 deg +-3 (45/135/225/315 with 1<d/r<1.41 = inside the search rectangle but outside the circle), occasionally DEL, and ~20% re-SETs of a fleet object at its exact current coordinates (same text, trailing zeros or exponent spelling; optionally with FIELD or EX), half of them right after a roam-collection object was moved into/out of its radius; every position keeps |d/r-1|>=1e-4 to every other object. Oracle: own haversine over the model's positions: nearby = other pattern-matching objects of key2 with d(new)<=r (minus, under NODWELL, those with d(old)<=r), faraway = d(old)<=r and d(new)>r, one message per entry, nothing else, meters = floor(d*1000)/1000 within 1e-3+1e-9 d; compared per step (a PUBLISH sentinel after every write delimits the channel stream). Non-trivial: a step whose new position has >=1 pattern-matching neighbour in the corner region or that yields >=2 entries, or a re-SET in place that yields >=1 entry; distinct by (pattern, same/other key, NODWELL, radius, construction, counts).")
 	c.Assume("message order within a step (nearby before faraway, by distance) is not part of the property: labelled, not judged; FSET/EXPIRE on a roam fence are out of scope")
 	maxSteps := ev.Pick(16, 24)
 	ev.Rapid("roam", ev.Pick(2500, 12000))
